@@ -54,7 +54,12 @@ def base_dir() -> Path:
     return _base
 
 
+# incremented whenever wn is pointed at another database file (also one of the same name)
+DB_GENERATION = [0]
+
+
 def close_db():
+    DB_GENERATION[0] += 1
     for conn in list(wn._db.pool.values()):
         try:
             conn.close()
